@@ -121,5 +121,53 @@ pub fn xing_link_resolve(s: &mut Src) -> R {
     Ok(())
 }
 
-crate::harness_table!(XING: xing_pass, xing_arcs, xing_resolve, xing_mirror, xing_link_resolve);
+// ------------------------------------------------------------------ Braid::closure and Link::{crossing_signs, components, writhe}
+// (BOUNDED stand-in: these traversals -- closures over hash sets / maps -- are outside both verifiers; braids on 2..4 strands, 1..6 letters,
+//  every strand touched.  The closure has one crossing per letter, in order, with the letter's sign; its components are the cycles of the
+//  braid permutation; writhe = exponent sum.)
+pub fn xing_braid_closure(s: &mut Src) -> R {
+    use yui_link::{Braid, Generator};
+    use yui::Sign;
+    let n = s.small(2, 4) as usize;
+    let len = s.small(1, 6) as usize;
+    let mut word: Vec<i32> = vec![];
+    for k in 0..6 { let i = s.small(1, 3); let neg = s.bool(); if k < len { let i = ((i - 1) % (n as i64 - 1) + 1) as i32; word.push(if neg { -i } else { i }); } }
+    // pos[p] = the strand (numbered by its top position) currently at position p; under[s] = strand s passes under somewhere
+    let mut pos: Vec<usize> = (0..n).collect();
+    let mut touched = vec![false; n];
+    let mut under = vec![false; n];
+    for &g in &word {
+        let i = (g.unsigned_abs() - 1) as usize;
+        // positive letter: the strand coming from the top left is the under strand; negative: the one from the top right
+        under[if g > 0 { pos[i] } else { pos[i + 1] }] = true;
+        pos.swap(i, i + 1); touched[i] = true; touched[i + 1] = true;
+    }
+    pre!(touched.iter().all(|&t| t));
+    // perm: top position -> bottom position of the same strand (closing up identifies them)
+    let mut perm = vec![0usize; n];
+    for p in 0..n { perm[pos[p]] = p; }
+    // the diagram's orientation is read off the under strands (PD convention); a component that never passes under has none: excluded
+    {
+        let mut seen = vec![false; n];
+        for i in 0..n { if !seen[i] { let mut any = false; let mut j = i; while !seen[j] { seen[j] = true; any |= under[j]; j = perm[j]; } pre!(any); } }
+    }
+    reach!();
+    let b = Braid::new(n, word.iter().map(|&g| Generator::from(g)).collect());
+    let l = b.closure();
+    ob!(l.crossing_num() == word.len(), "Braid::closure::one-crossing-per-letter");
+    let signs = l.crossing_signs();
+    ob!(signs.len() == word.len(), "Link::crossing_signs::one-per-crossing");
+    for (k, &g) in word.iter().enumerate() {
+        let want = if g > 0 { Sign::Pos } else { Sign::Neg };
+        ob!(signs[k] == want, "Braid::closure/Link::crossing_signs::sign-of-kth-crossing-is-sign-of-kth-letter");
+    }
+    ob!(l.writhe() == word.iter().map(|&g| g.signum()).sum::<i32>(), "Link::writhe==exponent-sum");
+    let mut seen = vec![false; n]; let mut cycles = 0;
+    for i in 0..n { if !seen[i] { cycles += 1; let mut j = i; while !seen[j] { seen[j] = true; j = perm[j]; } } }
+    let comps = l.components();
+    ob!(comps.len() == cycles, "Link::components==cycles-of-the-braid-permutation");
+    ob!(comps.iter().all(|c| c.is_circle()), "Link::components-are-closed");
+    Ok(())
+}
+crate::harness_table!(XING: xing_pass, xing_arcs, xing_resolve, xing_mirror, xing_link_resolve, xing_braid_closure);
 crate::harness_table_should_panic!(XING_REJECT: xing_reject_resolve_twice);
